@@ -74,6 +74,10 @@ func parseSDL(root *Root, reader io.Reader) (types []Type, extends []*Extend, er
 			default:
 				err = fmt.Errorf("%w, '%s' is not a valid schema directive at %d:%d", ErrParse, token, p.line, p.col)
 			}
+		} else if err == nil && !p.eof && p.onDeck != 0 {
+			// Not at the end and not the start of a token so the next
+			// character can not be the start of a definition.
+			err = fmt.Errorf("%w, unexpected character '%c' at %d:%d", ErrParse, p.onDeck, p.line, p.col)
 		}
 		if err != nil {
 			break
